@@ -154,6 +154,8 @@ def _optimizer(seed, with_scheduler=False):
 def _tensor(kind, seed):
     if kind == "f32_grad":
         return torch.from_numpy(make_array("f32", (3,), seed + 1).copy()).requires_grad_(True)
+    if kind == "f32_grad_2x3":
+        return torch.from_numpy(make_array("f32", (2, 3), seed + 5).copy()).requires_grad_(True)
     if kind == "f64":
         return torch.from_numpy(make_array("f64", (2, 2), seed + 1).copy())
     if kind == "c64":
@@ -237,7 +239,7 @@ def _leaf_table():
     add("arr_big_zero", "ndarray", lambda seed: np.zeros((64, 48), dtype=np.float32))
     add("arr_big_rand", "ndarray", lambda seed: np.random.default_rng([int(seed), 5]).standard_normal((40, 33)))
     # --- tensors ---
-    for k in ("f32_grad", "f64", "c64", "i64", "0d", "0d_grad", "empty", "bool", "param"):
+    for k in ("f32_grad", "f32_grad_2x3", "f64", "c64", "i64", "0d", "0d_grad", "empty", "bool", "param"):
         add(f"t_{k}", "tensor", (lambda seed, k=k: _tensor(k, seed)))
     # --- torch modules, optimizer, scheduler ---
     add("linear", "module", lambda seed: _linear(seed, 10))
@@ -671,8 +673,16 @@ def wide(kind, elem, n):
 def _width_graphs(quick):
     """Containers of every width of WIDTHS (the element-wise encoding names its slots '0', '1', ...: the
     alphabet straddles the places where a decimal slot name gets one digit longer) x container kind x element
-    kind, at top level and one level deep. quick: the element kinds that cost one zarr node per element
-    (ndarray, nested pair, object) only at widths {10, 11, 12, 101} on top level and 11 one level deep."""
+    kind, at top level and one level deep (inside a list; thorough: also inside a dict).
+
+    Cost decides the sub-lattices: element kinds stored as attributes (str, mixed scalars) or as one array
+    (all-numeric control) are cheap at any width; kinds that cost one zarr node per element (ndarray, nested
+    pair, object) make the library's list decoder quadratic (a 101-element list of arrays takes ~15 s to load).
+      quick   : cheap kinds: all widths on top level, widths {11, 101} one level deep;
+                node kinds : widths {10, 11, 12} on top level (objects {10, 11}), width 11 one level deep in a list.
+      thorough: cheap kinds: all widths, top level and both wrappers;
+                node kinds : all widths on top level (objects {10, 11, 101}); one level deep widths {11, 12, 25}
+                             in both wrappers and width 101 inside the list wrapper for list containers."""
     out = []
     cheap = ("str", "mixed_scalars", "all_numeric")
     for elem in WIDTH_ELEMENTS:
@@ -682,18 +692,38 @@ def _width_graphs(quick):
                 if g is None:
                     continue
                 if elem == "object" and n not in (10, 11, 101):
-                    continue  # a few widths only, in both tiers
-                top = elem in cheap or not quick or n in (10, 11, 12, 101)
-                deep = elem in cheap or not quick or n == 11
-                if elem == "object":
-                    deep = deep and n == 11
+                    continue
+                if elem in cheap:
+                    top = True
+                    deep_list = deep_dict = (not quick) or n in (11, 101)
+                    deep_dict = deep_dict and not quick
+                elif quick:
+                    top = n in (10, 11, 12)
+                    deep_list = n == 11 and kind == "list"
+                    deep_dict = False
+                else:
+                    top = True
+                    deep_list = n in (11, 12, 25) or (n == 101 and kind == "list")
+                    deep_dict = n in (11, 12, 25)
                 if top:
                     out.append(O("Root", x=g))
-                if deep:
+                if deep_list:
                     out.append(O("Root", x=C("list", L("s"), g)))
-                    if not quick:
-                        out.append(O("Root", x=D(("w", g), ("n", L("none")))))
+                if deep_dict:
+                    out.append(O("Root", x=D(("w", g), ("n", L("none")))))
     return out
+
+
+def wide_cost(desc):
+    """Rough relative cost of a wide-container graph (for scheduling the expensive ones first)."""
+    def rec(d):
+        ch = children(d)
+        if d[0] == "C" and len(ch) > 8:
+            node = any(c[0] != "L" or leaf(c[1]).cls == "ndarray" for c in ch)
+            n = len(ch)
+            return n * n if (node and d[1] != "dict") else 8 * n if node else n
+        return sum(rec(c) for c in ch)
+    return rec(desc)
 
 
 def _pair_graphs_quick(reps):
@@ -1029,7 +1059,7 @@ def _cmp(e, g, path, pos, slack, out):
             out.add(path, pos, "container_kind", type(e).__name__, short(g), kind)
             return
         if len(g) != len(e):
-            out.add(path, pos, "length", len(e), short(g), kind)
+            out.add(path, pos, "length", len(e), f"{len(g)}: {short(g, 70)}", kind)
             return
         if slack and len(e) > 0 and all(_is_num(x) for x in e):
             # all-numeric sequence: compared by numeric value
@@ -1051,7 +1081,7 @@ def _cmp(e, g, path, pos, slack, out):
             out.add(path, pos, "container_kind", type(e).__name__, short(g), kind)
             return
         if len(g) != len(e):
-            out.add(path, pos, "length", len(e), short(g), kind)
+            out.add(path, pos, "length", len(e), f"{len(g)}: {short(g, 70)}", kind)
             return
         numeric = slack and len(e) > 0 and all(_is_num(x) for x in e)
         rest = list(g)
